@@ -255,7 +255,7 @@ def gen_crashpoints(r):
 
 
 def gdef(d):
-    return "(mkD %s %s %s %s)" % tuple("true" if d.get(k) else "false" for k in ("restart", "snap", "solo10", "snapin"))
+    return "(mkD %s %s %s %s %s)" % tuple("true" if d.get(k) else "false" for k in ("restart", "snap", "solo10", "snapin", "early"))
 
 
 def gib(ib):
@@ -320,6 +320,83 @@ def raft_resolve(h, t):
         else:
             raise ValueError(name)
     return log, ops, steps[:len(ops) + 1]
+
+
+def gen_glue(r):
+    """real executor + node wired as in feedhub.go: deliveries, the ledger write of each block released or
+    not, reports held back and released out of order, the process dying at every point"""
+    init = 1                                  # height after genesis
+    h = dict(kind="glue", init=init, snap=1000, batch=1, id=1, ops=[])
+    ops = h["ops"]
+    k = r.randrange(3, 8)
+    nh = init + 1
+    if r.random() < 0.5:
+        ops.append(["ent", 0, 0, []])
+    for i in range(k):
+        if r.random() < 0.15 and nh > init + 1:
+            ops.append(["ent", 1, nh - 1, []])       # stale duplicate
+        ops.append(["ent", 1, nh, []])
+        nh += 1
+    ops.append(["ready", 0, r.randrange(1, k + 3), 0, r.choice([0, 2, 3])])
+    lives = r.choice([1, 2, 2, 3])
+    for life in range(lives):
+        for _ in range(r.randrange(0, 5)):
+            c = r.random()
+            if c < 0.55:
+                ops.append(["persist"])
+            elif c < 0.70:
+                ops.append(["hold", r.choice([1, 2, 3])])
+            elif c < 0.82:
+                ops.append(["release"])
+            else:
+                ops.append(["ready", r.choice([0, 0, 1]), r.choice([1, 2, 9]), 0, 0])
+        ops.append(["crash"])
+        ops.append(["ready", 0, 99, 0, 0])
+    for _ in range(r.randrange(0, 4)):
+        ops.append(["persist"])
+    ops.append(["release"])
+    return h
+
+
+def glue_resolve(h, t):
+    """flatten a glue trace: the op itself, then one OReport per ReportState that reached the node during it"""
+    log, ops, obs = [], [], []
+    steps = t["steps"]
+
+    def ghost(evs):
+        ci = canon_index(h["init"], log)
+        return glist([(ci.get(b["h"], 0), b) for b in evs], gib)
+    for op, st in zip(h["ops"], steps[1:]):
+        name = op[0]
+        reps = st.get("reps") or []
+        if name == "ent":
+            e = st["ent"]
+            log.append((st["r"][0], e["h"], e["txs"], name))
+            ops.append("OAppend")
+        elif name == "ready":
+            lo, hi, app = st["r"][:3]
+            ops.append("OReady %d %d %d %s" % (lo, hi, app, "None" if op[4] == 0 else "(Some %d)" % (op[4] - 1)))
+        elif name == "persist":
+            ops.append("OExec" if st["r"][0] == 1 else "ONop")
+        elif name == "crash":
+            ops.append("OCrash %s" % ghost(st["ev"]))
+        elif name in ("hold", "release"):
+            ops.append("ONop")
+        else:
+            raise ValueError(name)
+        # the state right after the op itself is not observable when reports followed in the same step
+        obs.append(dict(ev=st["ev"], st=[], bai=[]) if reps else st)
+        for rp in reps:
+            ops.append("OReport %d" % rp["h"])
+            obs.append(dict(ev=[], st=rp["st"], bai=rp["bai"]))
+    return log, ops, [steps[0]] + obs
+
+
+def glue_row(h, t, flags):
+    log, ops, obs = glue_resolve(h, t)
+    cfg = "{| c_id := 1; c_snap := 1000; c_init := %d |}" % h["init"]
+    glog = glist(["EBatch %d %s" % (e[1], glist(e[2])) if e[0] == 1 else "EEmpty" for e in log])
+    return "(%s, %s, %s, %s, %s)" % (gdef(flags), cfg, glog, glist(ops), glist(obs, gobs))
 
 
 def raft_row(h, t, flags):
@@ -540,6 +617,8 @@ def resolved_log(h, t):
     """(kind, height, txs, origin) per log entry, for both driver modes"""
     if h["kind"] == "raft":
         return raft_resolve(h, t)[0]
+    if h["kind"] == "glue":
+        return glue_resolve(h, t)[0]
     out = []
     for e in real_to_model(h, t)[0]:
         if e.startswith("EBatch"):
@@ -597,6 +676,9 @@ def decide_raft(ctx, known, h, t, v):
     if v[0] == 2:
         p, bits = v[1] % 10, v[1] // 10
         has_crash = any(op[0] == "crash" for op in h["ops"])
+        if p == 8:
+            return ("violation", "ReportState(h) reached the ordering node before block h was durable in the ledger "
+                                 "(the persisted applied index may cover an entry whose block is lost by a crash)")
         has_snapin = any(op[0] == "snapin" for op in h["ops"])
         if p in (2, 3, 4) and bits != 9 and (bits & 4) and has_crash and has_snapin and "C20-raft-snapshot-install-crash" in known:
             return ("known", "C20-raft-snapshot-install-crash")
@@ -663,6 +745,11 @@ def judge_order(hs, outs, flags):
             continue
         if h["kind"] == "raft":
             rows_r.append(raft_row(h, t, flags)); idx_r.append(i)
+        elif h["kind"] == "glue":
+            if t["steps"][0].get("dur") != h["init"]:
+                vs[i] = (9, 1)
+                continue
+            rows_r.append(glue_row(h, t, flags)); idx_r.append(i)
         elif h["kind"] == "raftreal":
             try:
                 glog, ops, obs = real_to_model(h, t)
@@ -744,7 +831,7 @@ def run_order(ctx, known):
         except ValueError:
             continue
         for hh in (obj if isinstance(obj, list) else [obj]):
-            if isinstance(hh, dict) and hh.get("kind") in ("raft", "solo", "raftreal", "sync"):
+            if isinstance(hh, dict) and hh.get("kind") in ("raft", "solo", "raftreal", "sync", "glue"):
                 hh = dict(hh); hh["corpus"] = os.path.basename(f)
                 hs.append(hh)
     n_corpus = len(hs)
@@ -755,6 +842,7 @@ def run_order(ctx, known):
     hs += [gen_solo(r) for _ in range(n_solo)]
     hs += [gen_real(r) for _ in range(n_real)]
     hs += [gen_sync(r) for _ in range(60 if ctx.quick else 3000)]
+    hs += [gen_glue(r) for _ in range(24 if ctx.quick else 400)]
     outs, msg = run_order_batch(exe, hs)
     if outs is None:
         ctx.broken("driver:order", msg)
@@ -791,6 +879,8 @@ def run_order(ctx, known):
             continue
         nev = sum(len(s["ev"]) for s in t.get("steps", []))
         ncrash = sum(1 for op in h["ops"] if op[0] == "crash")
+        if kind == "glue":
+            dist["glue:reports"] = dist.get("glue:reports", 0) + sum(len(s.get("reps") or []) for s in t.get("steps", []))
         skipped = kind == "raft" and any(s.get("r") and len(s["r"]) == 3 and s["r"][1] >= s["r"][0] for s in t.get("steps", [])) and \
             nev < sum(1 for s in t.get("steps", []) if s.get("ent") is not None)
         nontriv = nev >= 2 and (ncrash >= 1 or skipped or kind != "raft")
@@ -814,6 +904,8 @@ def run_order(ctx, known):
             ctx.broken("driver:order", "history %d (%s): %s" % (i, kind, t.get("err") or "trace not translatable"))
             continue
         d = decide_solo(ctx, known, h, t, v) if kind == "solo" else decide_raft(ctx, known, h, t, v)
+        if kind == "glue" and d is not None and d[0] == "known":
+            d = None if v[0] == 0 else d
         if d is None:
             continue
         dist["verdict:%d:%d" % v] = dist.get("verdict:%d:%d" % v, 0) + 1
